@@ -10,7 +10,8 @@ RULE = ('70% E1 histories (pure scheduler API) and 30% E2 histories (Master + Zk
         'eviction, server failure, blacklisting, schedule-once. After every '
         'cycle identities are recomputed from the instances. Non-trivial = '
         'some group had more members than identities and an unplaced member '
-        'at the end of a cycle. distinct = canonical JSON.')
+        'at the end of a cycle. distinct = canonical JSON.'
+        ' Since rounds 5-7: an instance that lost its server outside a cycle is blacklisted / unscheduled / has its group shrunk before the next cycle; group resized while no master looks, then restart.')
 ASSUMPTIONS = [
     'virtual clock replaces treadmill.scheduler.time',
     'group count changes reach the cell through configure_identity_group / '
